@@ -89,7 +89,8 @@ def cfgOfJson (j : Json) : Except String LCfg := do
          impl := natD j "impl" 1
          resetAfter := boolD j "reset_after" false
          keepdims := boolD j "keepdims" false
-         area := natD j "area" 1 }
+         area := natD j "area" 1
+         imageDF := dfOf (strD j "image_df" "channels_last") }
 
 def clsOf (s : String) : Except String Cls :=
   match s with
@@ -108,41 +109,50 @@ def optNats (l : List (Option Nat)) : Json :=
   Json.arr (l.map fun o => match o with | some n => Json.num (n : Int) | none => Json.null).toArray
 def nats (l : List Nat) : Json := Json.arr (l.map fun (n : Nat) => Json.num ((n : Int))).toArray
 
+/-- the right-hand side of the drop-in theorem on one instance (stock term, pre-quantized weights) -/
+def dropinRhs (cls : Cls) (c : LCfg) (E : Env Tensor) : Tensor :=
+  match cls with
+  | .avgPool2d =>
+    if c.hasQ 0 then
+      actOf c E (op2C .mul (eval concrete { E with x := op1C (.scale (c.area : Rat)) E.x } (kerasLayer cls c))
+        (op1C .castFloatx (E.quant 0 (Tensor.scalar (1 / (c.area : Rat))))))
+    else actOf c E (eval concrete E (kerasLayer cls c))
+  | .globalAvgPool2d =>
+    if c.hasQ 0 then
+      actOf c E (op2C .mul (op1C (.sumHW c.pool.df c.keepdims) E.x)
+        (E.quant 0 (op1C (.recipAreaHW c.pool.df) E.x)))
+    else actOf c E (eval concrete E (kerasLayer cls c))
+  | .conv2d =>
+    let P := preEnv c E
+    let P' : Env Tensor := if c.hasMask then
+      { P with weight := fun i => if i = 0 then op2C .mul (P.weight 0) E.mask else P.weight i } else P
+    actOf c E (eval concrete P' (kerasLayer cls c))
+  | _ => actOf c E (eval concrete (preEnv c E) (kerasLayer cls c))
+
 def handle (j : Json) : Except String Json := do
   let op ← getStr j "op"
   let c ← cfgOfJson (← j.getObjVal? "cfg")
   match op with
   | "layer" =>
+    -- ONE layer object (configuration, weights, quantizers) called on every tensor of "xs" in turn:
+    -- `objectCalls` of the layer term (the definition `C11_object_history` is about)
     let cls ← clsOf (← getStr j "cls")
-    let x ← tensorOfJson (← j.getObjVal? "x")
+    let xs ← tensorList j "xs"
     let ws ← tensorList j "weights"
     let mask ← optTensor j "mask"
     let qs ← qspecList j "quant"
     let as ← qspecList j "actv"
-    let E := concreteEnv x [] ws mask qs as
-    let y := eval concrete E (qlayer cls c)
-    -- the right-hand side of the drop-in theorem on this instance (stock term, pre-quantized weights)
-    let rhs :=
-      match cls with
-      | .avgPool2d =>
-        if c.hasQ 0 then
-          actOf c E (op2C .mul (eval concrete { E with x := op1C (.scale (c.area : Rat)) x } (kerasLayer cls c))
-            (op1C .castFloatx (E.quant 0 (Tensor.scalar (1 / (c.area : Rat))))))
-        else actOf c E (eval concrete E (kerasLayer cls c))
-      | .globalAvgPool2d =>
-        if c.hasQ 0 then
-          actOf c E (op2C .mul (op1C (.sumHW c.pool.df c.keepdims) x) (E.quant 0 (Tensor.scalar (1 / (c.area : Rat)))))
-        else actOf c E (eval concrete E (kerasLayer cls c))
-      | .conv2d =>
-        let P := preEnv c E
-        let P' : Env Tensor := if c.hasMask then
-          { P with weight := fun i => if i = 0 then op2C .mul (P.weight 0) mask else P.weight i } else P
-        actOf c E (eval concrete P' (kerasLayer cls c))
-      | _ => actOf c E (eval concrete (preEnv c E) (kerasLayer cls c))
-    -- the stock layer on the RAW weights (what the layer must equal when nothing is configured)
-    let stock := eval concrete E (kerasLayer cls c)
-    pure <| Json.mkObj [("y", tensorToJson y), ("dropin", Json.bool (y.same rhs && y.ok == rhs.ok)),
-      ("stock", tensorToJson stock),
+    let E := concreteEnv Tensor.bad [] ws mask qs as
+    let ys := objectCalls concrete E (qlayer cls c) xs
+    let calls := (xs.zip ys).map fun (x, y) =>
+      let Ex : Env Tensor := { E with x := x }
+      let rhs := dropinRhs cls c Ex
+      -- the stock layer on the RAW weights (what the layer must equal when nothing is configured)
+      let stock := eval concrete Ex (kerasLayer cls c)
+      Json.mkObj [("y", tensorToJson y), ("dropin", Json.bool (y.same rhs && y.ok == rhs.ok)),
+                  ("stock", tensorToJson stock)]
+    pure <| Json.mkObj [("calls", Json.arr calls.toArray),
+      ("build_free", Json.bool (buildFree (qlayer cls c) && buildFree (kerasLayer cls c))),
       ("quantizers", optNats (getQuantizers cls c)),
       ("applied", nats (appliedSlots (slotCount cls) [qlayer cls c])),
       ("reported_live", nats (reportedLive cls c)),
